@@ -43,6 +43,20 @@ func init() {
 
 // ---------------------------------------------------------------- shared
 
+// decodeSites: the three command loops are not the only place a command may decode. Any other
+// function of package main that calls a Decoder (a helper for -every, a background reader) gets
+// the same obligations: a reader that hands records over a channel and signals the end of input
+// on another one lets the end overtake records still queued.
+func decodeSites(c *Ctx, prop string) {
+	known := map[*ssa.Function]bool{c.P.Func("", "encode"): true, c.P.Func("", "report"): true, c.P.Func("", "plotRun"): true}
+	for _, fn := range c.P.RepoFuncs("") {
+		if known[fn] || len(callsNamed(fn, "(lib.Decoder).Decode")) == 0 {
+			continue
+		}
+		decodeLoop(c, prop, fn, "(lib.Encoder).Encode", "invoke:lib.Report.Add", "(*lib/plot.Plot).Add")
+	}
+}
+
 // decodeLoop checks the generic decode-loop obligations in fn. consumers are the
 // call names that take the decoded Result.
 func decodeLoop(c *Ctx, prop string, fn *ssa.Function, consumers ...string) {
@@ -381,6 +395,7 @@ func runC08(c *Ctx) {
 	decodeLoop(c, "C08", c.P.Func("", "encode"), "(lib.Encoder).Encode")
 	decodeLoop(c, "C08", c.P.Func("", "report"), "invoke:lib.Report.Add")
 	decodeLoop(c, "C08", c.P.Func("", "plotRun"), "(*lib/plot.Plot).Add")
+	decodeSites(c, "C08")
 	c08EncodingTable(c)
 	c08OutputTruncated(c)
 	gobDirect(c)
@@ -959,6 +974,7 @@ func runC09(c *Ctx) {
 	decodeLoop(c, "C09", c.P.Func("", "encode"), "(lib.Encoder).Encode")
 	decodeLoop(c, "C09", c.P.Func("", "report"), "invoke:lib.Report.Add")
 	decodeLoop(c, "C09", c.P.Func("", "plotRun"), "(*lib/plot.Plot).Add")
+	decodeSites(c, "C09")
 	c13RoundRobin(c)
 	c02Pump(c)
 }
@@ -1185,6 +1201,7 @@ func runC13(c *Ctx) {
 	decodeLoop(c, "C13", c.P.Func("", "encode"), "(lib.Encoder).Encode")
 	decodeLoop(c, "C13", c.P.Func("", "report"), "invoke:lib.Report.Add")
 	decodeLoop(c, "C13", c.P.Func("", "plotRun"), "(*lib/plot.Plot).Add")
+	decodeSites(c, "C13")
 	// union independence needs commutative accumulators
 	if mAdd, lAdd := c.P.Func("lib", "Metrics.Add"), c.P.Func("lib", "LatencyMetrics.Add"); mAdd != nil && lAdd != nil {
 		runC10Accumulators(c)
